@@ -1,6 +1,7 @@
 package postgres
 
 import (
+	"bytes"
 	"context"
 	"fmt"
 
@@ -35,12 +36,16 @@ func (pdb *pgDb) Dump(ctx context.Context, key []byte) (o *db.Dumper, err error)
 		}
 	}()
 
-	if rs.Next() {
+	for rs.Next() {
 		var kk []byte
 		var vv []byte
 		err = rs.Scan(&kk, &vv)
 		if err != nil {
 			return nil, err
+		}
+		// the query has no upper bound: entries of other keys, sessions and data types follow
+		if !bytes.HasPrefix(kk, k) {
+			continue
 		}
 		pdb.it = rs
 		pdb.itBase = k
@@ -57,15 +62,20 @@ func (pdb *pgDb) Dump(ctx context.Context, key []byte) (o *db.Dumper, err error)
 func (pdb *pgDb) dumpFunc(ctx context.Context) ([]byte, []byte) {
 	var kk []byte
 	var vv []byte
-	if !pdb.it.Next() {
-		logg.DebugCtxf(ctx, "no more data in pg iterator")
-		pdb.it = nil
-		pdb.itBase = nil
-		return nil, nil
-	}
-	err := pdb.it.Scan(&kk, &vv)
-	if err != nil {
-		return nil, nil
+	for {
+		if !pdb.it.Next() {
+			logg.DebugCtxf(ctx, "no more data in pg iterator")
+			pdb.it = nil
+			pdb.itBase = nil
+			return nil, nil
+		}
+		err := pdb.it.Scan(&kk, &vv)
+		if err != nil {
+			return nil, nil
+		}
+		if bytes.HasPrefix(kk, pdb.itBase) {
+			break
+		}
 	}
 	k, err := pdb.DecodeKey(ctx, kk)
 	if err != nil {
